@@ -569,10 +569,10 @@ pub fn skeleton(k: usize, s: &[usize]) -> Program {
             b.push(li(A7, 10));
             b.push(ecall());
             b.push(label("L3"));
-            b.extend(sl(2));
+            b.extend(sl(3));
             b.push(j("L1"));
             b.push(label("L2"));
-            b.extend(sl(3));
+            b.extend(sl(2));
             b.push(j("L3"));
         }
         15 => {
